@@ -251,6 +251,7 @@ func first(a, _ []byte) []byte { return a }
 // tag names the class the object was allocated with (atype is the immutable ghost
 // allocation type; leafT() is the leaf type of the tree kind in question - node-level proofs
 // hold for every value of leafT()).
+//@ spec isNodeT(o) = atype(o) == typeid(node4) || atype(o) == typeid(node16) || atype(o) == typeid(node48) || atype(o) == typeid(node256)
 //@ spec tyOf(k) = ite(k == 0, typeid(node4), ite(k == 1, typeid(node16), ite(k == 2, typeid(node48), ite(k == 3, typeid(node256), leafT()))))
 //@ spec okRef(r) = r.pointer != nil && inT(r.pointer) && r.tag <= 4 && atype(r.pointer) == tyOf(r.tag)
 //@ spec okChild(n, r) = okRef(r) && r.pointer != n
@@ -336,6 +337,7 @@ func first(a, _ []byte) []byte { return a }
 
 //@ func (*node48).addChild
 //@   assigns SP ST B node.prefixLen node.childrenLen node4.keys pooled
+//@   ensures[allocs_nodes_only] forallref(o, implies(fresh(o), isNodeT(o)))
 //@   requires n48 != nil && atype(n48) == typeid(node48) && Inv48(n48) && refIs(ref, n48, 2)
 //@   requires n48.keys[b] == 0 && okRef(child) && child.pointer != n48
 //@   ensures[view] forallp(x, 0, 256, lookP(*ref, x) == ite(x == b, child.pointer, old(lookP48(n48, x))) && lookT(*ref, x) == ite(x == b, child.tag, old(lookT48(n48, x))))
@@ -359,6 +361,7 @@ func first(a, _ []byte) []byte { return a }
 
 //@ func (*node16).addChild
 //@   assigns SP ST B node.prefixLen node.childrenLen node4.keys pooled
+//@   ensures[allocs_nodes_only] forallref(o, implies(fresh(o), isNodeT(o)))
 //@   requires n16 != nil && atype(n16) == typeid(node16) && Inv16(n16) && refIs(ref, n16, 1)
 //@   requires lookP16(n16, b) == nil && okRef(child) && child.pointer != n16
 //@   ensures[view] forallp(x, 0, 256, lookP(*ref, x) == ite(x == b, child.pointer, old(lookP16(n16, x))) && lookT(*ref, x) == ite(x == b, child.tag, old(lookT16(n16, x))))
@@ -379,6 +382,7 @@ func first(a, _ []byte) []byte { return a }
 
 //@ func (*node4).addChild
 //@   assigns SP ST B node.prefixLen node.childrenLen node4.keys pooled
+//@   ensures[allocs_nodes_only] forallref(o, implies(fresh(o), isNodeT(o)))
 //@   requires n4 != nil && atype(n4) == typeid(node4) && Inv4(n4) && refIs(ref, n4, 0)
 //@   requires lookP4(n4, b) == nil && okRef(child) && child.pointer != n4
 //@   ensures[view] forallp(x, 0, 256, lookP(*ref, x) == ite(x == b, child.pointer, old(lookP4(n4, x))) && lookT(*ref, x) == ite(x == b, child.tag, old(lookT4(n4, x))))
@@ -394,6 +398,7 @@ func first(a, _ []byte) []byte { return a }
 
 //@ func (*nodeRef).addChild
 //@   assigns SP ST B node.prefixLen node.childrenLen node4.keys pooled
+//@   ensures[allocs_nodes_only] forallref(o, implies(fresh(o), isNodeT(o)))
 //@   requires typeOK(*ptr) && InvRef(*ptr) && slotOK(ptr)
 //@   requires lookP(*ptr, b) == nil && okRef(child) && child.pointer != (*ptr).pointer
 //@   ensures[view] forallp(x, 0, 256, lookP(*ptr, x) == ite(x == b, child.pointer, old(lookP(*ptr, x))) && lookT(*ptr, x) == ite(x == b, child.tag, old(lookT(*ptr, x))))
@@ -411,6 +416,7 @@ func first(a, _ []byte) []byte { return a }
 
 //@ func (*node256).deleteChild
 //@   assigns SP ST B node.prefixLen node.childrenLen node4.keys pooled
+//@   ensures[allocs_nodes_only] forallref(o, implies(fresh(o), isNodeT(o)))
 //@   requires n256 != nil && atype(n256) == typeid(node256) && Inv256(n256) && refIs(ref, n256, 3)
 //@   requires n256.children[b].pointer != nil
 //@   ensures[view] forallp(x, 0, 256, lookP(*ref, x) == ite(x == b, nil, old(lookP256(n256, x))) && lookT(*ref, x) == ite(x == b, 0, old(lookT256(n256, x))))
@@ -438,6 +444,7 @@ func first(a, _ []byte) []byte { return a }
 
 //@ func (*node48).deleteChild
 //@   assigns SP ST B node.prefixLen node.childrenLen node4.keys pooled
+//@   ensures[allocs_nodes_only] forallref(o, implies(fresh(o), isNodeT(o)))
 //@   requires n48 != nil && atype(n48) == typeid(node48) && Inv48(n48) && refIs(ref, n48, 2)
 //@   requires n48.keys[b] != 0
 //@   ensures[view] forallp(x, 0, 256, lookP(*ref, x) == ite(x == b, nil, old(lookP48(n48, x))) && lookT(*ref, x) == ite(x == b, 0, old(lookT48(n48, x))))
@@ -464,6 +471,7 @@ func first(a, _ []byte) []byte { return a }
 
 //@ func (*node16).deleteChild
 //@   assigns SP ST B node.prefixLen node.childrenLen node4.keys pooled
+//@   ensures[allocs_nodes_only] forallref(o, implies(fresh(o), isNodeT(o)))
 //@   requires n16 != nil && atype(n16) == typeid(node16) && Inv16(n16) && refIs(ref, n16, 1)
 //@   requires lookP16(n16, b) != nil
 //@   ensures[view] forallp(x, 0, 256, lookP(*ref, x) == ite(x == b, nil, old(lookP16(n16, x))) && lookT(*ref, x) == ite(x == b, 0, old(lookT16(n16, x))))
@@ -484,6 +492,7 @@ func first(a, _ []byte) []byte { return a }
 
 //@ func (*node4).deleteChild
 //@   assigns SP ST B node.prefixLen node.childrenLen node4.keys pooled
+//@   ensures[allocs_nodes_only] forallref(o, implies(fresh(o), isNodeT(o)))
 //@   requires n4 != nil && atype(n4) == typeid(node4) && Inv4(n4) && refIs(ref, n4, 0)
 //@   requires has4(n4, b) && n4.childrenLen >= 2
 //@   requires forall(i, 0, 4, implies(i < n4.childrenLen, n4.children[i].pointer != n4))
@@ -510,6 +519,7 @@ func first(a, _ []byte) []byte { return a }
 
 //@ func (*nodeRef).deleteChild
 //@   assigns SP ST B node.prefixLen node.childrenLen node4.keys pooled
+//@   ensures[allocs_nodes_only] forallref(o, implies(fresh(o), isNodeT(o)))
 //@   requires typeOK(*ptr) && InvRef(*ptr) && slotOK(ptr)
 //@   requires lookP(*ptr, b) != nil
 //@   requires implies((*ptr).tag == 0, as(node4, (*ptr).pointer).childrenLen >= 2 && forall(i, 0, 4, implies(i < as(node4, (*ptr).pointer).childrenLen, as(node4, (*ptr).pointer).children[i].pointer != (*ptr).pointer)))
@@ -570,7 +580,6 @@ func first(a, _ []byte) []byte { return a }
 //@ spec WF1_{alpha,unsigned,signed,float,compound}(t) = t != nil && allocated(t) && atype(t) == typeid($KINDSortedTree) && leafT() == typeid($KINDLeafNode) && rootOK(t.root) && HeapOK_$KIND()
 //@ spec WF1in_{alpha,unsigned,signed,float,compound}(t) = WF1_$KIND(t) && LinkedLive() && rootLive(t.root)
 //@ spec sizeSane(t) = 0 <= t.size && t.size < 4611686018427387904
-//@ spec isNodeT(o) = atype(o) == typeid(node4) || atype(o) == typeid(node16) || atype(o) == typeid(node48) || atype(o) == typeid(node256)
 //@ spec slotOf(ref, t) = ref.obj != nil && allocated(ref.obj) && (ref.obj == t && ref.idx == 0 || inT(ref.obj) && isNodeT(ref.obj))
 
 //@ func (*{alpha,unsigned,signed,float,compound}LeafNode[V]).getKey
